@@ -312,4 +312,213 @@ example : get_path (gOps id) [⟨.list, [(.none, .atom (.int 7))]⟩] (.ref 0) [
   rfl
 example : PlainSeg .none ∧ PlainSeg (.int 0) := by simp [PlainSeg]
 
+/-! ## 7. the MAIN LOOP of `remap` (loop mode of harness/py2lean_c08.py)
+
+`Src.iterutils.remap_loop.loop1` is the `while stack:` loop regenerated from the source, with the callbacks as
+parameters.  Instantiated with the TRANSLATED `default_enter` (reads on the input heap `h`, allocation in the rebuilt
+heap) and `default_exit` (on the rebuilt heap) and with the model's visit callback, one iteration of the source loop
+IS one `hstep` of the heap-level machine of Model.lean (`src_remap_loop_simulates_hstep`). -/
+
+/-- a work-stack entry of the model as the source's entry -/
+def frameOf : HFrame → PyRtC08.Frame Obj Atom
+  | .item k o => .item k o
+  | .exit k old new _ => .exit k (.ref new) (.ref old)
+
+/-- the model's registry (input id ↦ rebuilt object) as the source's `registry` (keyed by `id()` = the reference) -/
+def regOf (r : List (Nat × Obj)) : List (Obj × Obj) := r.map fun p => (Obj.ref p.1, p.2)
+
+/-- the model's visit callback as a callback of the source loop (a raising visit raises `Exc.Other`) -/
+def visitOf (c : HCfg) : PyRtC08.VisitFn Heap Obj Atom := fun s p k v =>
+  match c.vf s p k v with
+  | .keep => .ok (.true_, s)
+  | .drop => .ok (.false_, s)
+  | .repl k2 v2 => .ok (.pair k2 v2, s)
+  | .raise => .error .Other
+
+/-- the translated loop with the translated default callbacks and the model's visit -/
+abbrev srcLoop (c : HCfg) (h : Heap) (root : Obj) :=
+  remap_loop.loop1 root (visitOf c) (default_enter (gOps fun _ => h)) (default_exit (gOps id)) false c.reraise Atom.none
+
+theorem regLookup_regOf_ref (r : List (Nat × Obj)) (id : Nat) : regLookup (regOf r) (.ref id) = lookup id r := by
+  induction r with
+  | nil => rfl
+  | cons x r ih => obtain ⟨j, o⟩ := x; simp [regOf, regLookup, lookup] at ih ⊢; split <;> simp_all [regOf]
+
+theorem regLookup_regOf_atom (r : List (Nat × Obj)) (a : Atom) : regLookup (regOf r) (.atom a) = none := by
+  induction r with
+  | nil => rfl
+  | cons x r ih => obtain ⟨j, o⟩ := x; simp [regOf, regLookup] at ih ⊢; exact ih
+
+/-- how the source loop goes on with `n` more iterations from the model state `s1` reached by one step: it continues
+    from the corresponding source state, or the error recorded by the model is the exception the source raised -/
+def contFrom (c : HCfg) (h : Heap) (root : Obj) (n : Nat) (ent : List Obj) (s1 : HSt) :=
+  match s1.err with
+  | none => srcLoop c h root n ent s1.nis s1.path (regOf s1.reg) (s1.stack.map frameOf) (some s1.value) s1.out
+  | some .typeError => .error .TypeError
+  | some .visitError => .error .Other
+
+set_option hygiene false in
+local macro "finish_cases" c:term "," o:term : tactic => `(tactic| (
+  cases hv : HCfg.vf $c s.out s.path k $o <;> cases hn : s.nis <;> cases hr : HCfg.reraise $c <;>
+    simp [he, hv, hn, hr, srcLoop, Exc.isA]))
+
+theorem srcLoop_item_atom (c : HCfg) (h : Heap) (root : Obj) (n : Nat) (ent : List Obj) (val : Option Obj) (s : HSt)
+    (k : Key) (a : Atom) (rest : List HFrame) (hs : s.stack = .item k (.atom a) :: rest) (he : s.err = none) :
+    srcLoop c h root (n + 1) ent s.nis s.path (regOf s.reg) (s.stack.map frameOf) val s.out =
+      contFrom c h root n ent
+        (finishItem c { s with trace := s.trace ++ [.enter s.path k (.atom a) false] } rest k (.atom a) (.atom a)) := by
+  simp only [srcLoop, hs, List.map_cons, frameOf]
+  rw [remap_loop.loop1]
+  simp only [regLookup_regOf_atom, src_default_enter_eq_model, enterModel, nodeOf, visitOf, finishItem, appendItem, contFrom]
+  finish_cases c, (Obj.atom a)
+
+theorem srcLoop_item_registered (c : HCfg) (h : Heap) (root : Obj) (n : Nat) (ent : List Obj) (val : Option Obj) (s : HSt)
+    (k : Key) (id : Nat) (v : Obj) (rest : List HFrame) (hs : s.stack = .item k (.ref id) :: rest) (he : s.err = none)
+    (hreg : lookup id s.reg = some v) :
+    srcLoop c h root (n + 1) ent s.nis s.path (regOf s.reg) (s.stack.map frameOf) val s.out =
+      contFrom c h root n ent (finishItem c s rest k (.ref id) v) := by
+  simp only [srcLoop, hs, List.map_cons, frameOf]
+  rw [remap_loop.loop1]
+  simp only [regLookup_regOf_ref, hreg, regGet, visitOf, finishItem, appendItem, contFrom]
+  finish_cases c, v
+
+theorem srcLoop_item_dangling (c : HCfg) (h : Heap) (root : Obj) (n : Nat) (ent : List Obj) (val : Option Obj) (s : HSt)
+    (k : Key) (id : Nat) (rest : List HFrame) (hs : s.stack = .item k (.ref id) :: rest) (he : s.err = none)
+    (hreg : lookup id s.reg = none) (hnd : h[id]? = none) :
+    srcLoop c h root (n + 1) ent s.nis s.path (regOf s.reg) (s.stack.map frameOf) val s.out =
+      contFrom c h root n ent
+        (finishItem c { s with trace := s.trace ++ [.enter s.path k (.ref id) false] } rest k (.ref id) (.ref id)) := by
+  simp only [srcLoop, hs, List.map_cons, frameOf]
+  rw [remap_loop.loop1]
+  simp only [regLookup_regOf_ref, hreg, src_default_enter_eq_model, enterModel, nodeOf, hnd, visitOf, finishItem,
+    appendItem, contFrom]
+  finish_cases c, (Obj.ref id)
+
+theorem map_frameOf_itemFrames (l : List (Key × Obj)) :
+    (itemFrames l).map frameOf = l.map fun kv => PyRtC08.Frame.item kv.1 kv.2 := by
+  simp [itemFrames, frameOf, List.map_map, Function.comp_def]
+
+theorem srcLoop_item_enter (c : HCfg) (h : Heap) (root : Obj) (n : Nat) (ent : List Obj) (val : Option Obj) (s : HSt)
+    (k : Key) (id : Nat) (nd : Node) (rest : List HFrame) (hs : s.stack = .item k (.ref id) :: rest) (he : s.err = none)
+    (hreg : lookup id s.reg = none) (hnd : h[id]? = some nd) :
+    srcLoop c h root (n + 1) ent s.nis s.path (regOf s.reg) (s.stack.map frameOf) val s.out =
+      srcLoop c h root n (ent ++ [.ref id]) ((s.path, []) :: s.nis) (if Obj.ref id = root then s.path else s.path ++ [k])
+        (regOf ((id, .ref s.out.length) :: s.reg))
+        ((itemFrames (enumItems nd.kind 0 nd.items) ++ (.exit k id s.out.length nd.kind :: rest)).map frameOf)
+        (some (.ref id)) (s.out ++ [⟨nd.kind, []⟩]) := by
+  simp only [srcLoop, hs, List.map_cons, frameOf, List.map_append, map_frameOf_itemFrames]
+  rw [remap_loop.loop1]
+  simp only [regLookup_regOf_ref, hreg, src_default_enter_eq_model, enterModel, nodeOf, hnd]
+  by_cases hroot : Obj.ref id = root <;> cases hl : enumItems nd.kind 0 nd.items <;> simp [hroot, hl, regOf, srcLoop]
+
+theorem srcLoop_exit (c : HCfg) (h : Heap) (root : Obj) (n : Nat) (ent : List Obj) (val : Option Obj) (s s1 : HSt)
+    (k : Key) (old new : Nat) (kd : Kind) (rest : List HFrame) (p : Path) (items : List (Key × Obj))
+    (nr : List (Path × List (Key × Obj)))
+    (hs : s.stack = .exit k old new kd :: rest) (he : s.err = none) (hn : s.nis = (p, items) :: nr)
+    (hnew : s.out[new]? = some ⟨kd, []⟩) (hstep1 : hstep c h root s = some s1) :
+    srcLoop c h root (n + 1) ent s.nis s.path (regOf s.reg) (s.stack.map frameOf) val s.out =
+      contFrom c h root n ent s1 := by
+  simp only [srcLoop, hs, hn, List.map_cons, frameOf]
+  rw [remap_loop.loop1]
+  simp only [src_default_exit_eq_model _ _ _ _ _ _ _ hnew, visitOf, contFrom]
+  cases nr with
+  | nil =>
+    simp [hstep, hs, he, hn] at hstep1
+    subst hstep1
+    simp [he, regOf, srcLoop]
+  | cons x nr2 =>
+    obtain ⟨pp, acc⟩ := x
+    simp [hstep, hs, he, hn] at hstep1
+    subst hstep1
+    simp only [finishItem, appendItem]
+    cases hv : c.vf (exitNode kd new items s.out).1 p k (exitNode kd new items s.out).2 <;> cases hr : c.reraise <;>
+      simp [he, hv, hr, srcLoop, Exc.isA, regOf]
+
+/-- the same with an arbitrary `entered` list and last `value` (they do not influence the iteration) -/
+def contFromV (c : HCfg) (h : Heap) (root : Obj) (n : Nat) (ent : List Obj) (v1 : Option Obj) (s1 : HSt) :=
+  match s1.err with
+  | none => srcLoop c h root n ent s1.nis s1.path (regOf s1.reg) (s1.stack.map frameOf) v1 s1.out
+  | some .typeError => .error .TypeError
+  | some .visitError => .error .Other
+
+theorem contFrom_eq (c : HCfg) (h : Heap) (root : Obj) (n : Nat) (ent : List Obj) (s1 : HSt) :
+    contFrom c h root n ent s1 = contFromV c h root n ent (some s1.value) s1 := rfl
+
+/-- what an exit entry on top of the stack needs: its blank container is still blank and it has its frame of
+    collected items (an invariant of the machine: `LoopInv` below) -/
+def StepOK (s : HSt) : Prop :=
+  ∀ k old new kd rest, s.stack = .exit k old new kd :: rest → s.out[new]? = some ⟨kd, []⟩ ∧ s.nis ≠ []
+
+/-- ONE ITERATION OF THE SOURCE LOOP IS ONE `hstep`: from the source state that corresponds to the model state `s`
+    (work stack `frameOf`, registry `regOf`, same path / collected items / rebuilt heap; ANY `entered` list and last
+    value), `n + 1` iterations of the translated `while stack:` loop - with the translated `default_enter` /
+    `default_exit` and the model's visit callback - are: finished (empty stack), or `n` iterations from the state
+    corresponding to `hstep`'s, or the exception for the error `hstep` records.  When the stack becomes empty the
+    source's `value` is the model's. -/
+theorem src_remap_loop_simulates_hstep (c : HCfg) (h : Heap) (root : Obj) (n : Nat) (ent : List Obj)
+    (val : Option Obj) (s : HSt) (he : s.err = none) (hok : StepOK s) :
+    match hstep c h root s with
+    | none => srcLoop c h root (n + 1) ent s.nis s.path (regOf s.reg) (s.stack.map frameOf) val s.out
+        = .ok ((ent, s.nis, s.path, regOf s.reg, [], val), s.out)
+    | some s1 => ∃ ent1 v1, (s1.stack = [] → v1 = some s1.value) ∧
+        srcLoop c h root (n + 1) ent s.nis s.path (regOf s.reg) (s.stack.map frameOf) val s.out
+          = contFromV c h root n ent1 v1 s1 := by
+  cases hst : s.stack with
+  | nil =>
+    have : hstep c h root s = none := by simp [hstep, he, hst]
+    rw [this]
+    simp only [srcLoop, List.map_nil]
+    rw [remap_loop.loop1]
+  | cons fr rest =>
+    cases fr with
+    | item k o =>
+      cases o with
+      | atom a =>
+        have hh : hstep c h root s = some (finishItem c { s with trace := s.trace ++ [.enter s.path k (.atom a) false] }
+            rest k (.atom a) (.atom a)) := by simp [hstep, he, hst]
+        rw [hh]
+        exact ⟨ent, _, fun _ => rfl, by rw [← hst, srcLoop_item_atom c h root n ent val s k a rest hst he, contFrom_eq]⟩
+      | ref id =>
+        cases hreg : lookup id s.reg with
+        | some v =>
+          have hh : hstep c h root s = some (finishItem c s rest k (.ref id) v) := by simp [hstep, he, hst, hreg]
+          rw [hh]
+          exact ⟨ent, _, fun _ => rfl,
+            by rw [← hst, srcLoop_item_registered c h root n ent val s k id v rest hst he hreg, contFrom_eq]⟩
+        | none =>
+          cases hnd : h[id]? with
+          | none =>
+            have hh : hstep c h root s = some (finishItem c
+                { s with trace := s.trace ++ [.enter s.path k (.ref id) false] } rest k (.ref id) (.ref id)) := by
+              simp [hstep, he, hst, hreg, hnd]
+            rw [hh]
+            exact ⟨ent, _, fun _ => rfl,
+              by rw [← hst, srcLoop_item_dangling c h root n ent val s k id rest hst he hreg hnd, contFrom_eq]⟩
+          | some nd =>
+            have hh := srcLoop_item_enter c h root n ent val s k id nd rest hst he hreg hnd
+            have hh2 : hstep c h root s = some { s with
+                stack := itemFrames (enumItems nd.kind 0 nd.items) ++ (.exit k id s.out.length nd.kind :: rest),
+                path := if Obj.ref id = root then s.path else s.path ++ [k],
+                reg := (id, .ref s.out.length) :: s.reg,
+                nis := (s.path, []) :: s.nis,
+                out := s.out ++ [⟨nd.kind, []⟩],
+                trace := s.trace ++ [.enter s.path k (.ref id) true] } := by
+              simp [hstep, he, hst, hreg, hnd]
+            rw [hh2]
+            refine ⟨ent ++ [.ref id], some (.ref id), by simp, ?_⟩
+            rw [← hst, hh]
+            simp [contFromV, he]
+    | exit k old new kd =>
+      obtain ⟨hnew, hnis⟩ := hok k old new kd rest hst
+      cases hn : s.nis with
+      | nil => exact absurd hn hnis
+      | cons x nr =>
+        obtain ⟨p, items⟩ := x
+        cases hh : hstep c h root s with
+        | none => simp [hstep, he, hst, hn] at hh; cases nr <;> simp at hh
+        | some s1 =>
+          exact ⟨ent, _, fun _ => rfl,
+            by rw [← hst, ← hn, srcLoop_exit c h root n ent val s s1 k old new kd rest p items nr hst he hn hnew hh,
+              contFrom_eq]⟩
+
 end C08
